@@ -262,3 +262,4 @@ pub fn blind_without_marked_outputs() {
     core::mem::forget(r);
     core::mem::forget((tx, secp));
 }
+
